@@ -150,6 +150,20 @@ func classify(err error, ref map[string]bool) int {
 	return eUnknown
 }
 
+// like a net/http response body: reading after Close fails
+type closeAwareBody struct {
+	r      io.Reader
+	closed bool
+}
+
+func (b *closeAwareBody) Read(p []byte) (int, error) {
+	if b.closed {
+		return 0, errors.New("http: read on closed response body")
+	}
+	return b.r.Read(p)
+}
+func (b *closeAwareBody) Close() error { b.closed = true; return nil }
+
 type failReader struct {
 	r   io.Reader
 	err error
@@ -232,7 +246,7 @@ func buildHTTPResponse(t toutSpec, hr *http.Request, p *progSpec) *http.Response
 		}
 	}
 	return &http.Response{StatusCode: t.Status, Status: fmt.Sprintf("%d %s", t.Status, http.StatusText(t.Status)),
-		Proto: "HTTP/1.1", ProtoMajor: 1, ProtoMinor: 1, Header: h, Body: io.NopCloser(body), ContentLength: cl, Request: hr}
+		Proto: "HTTP/1.1", ProtoMajor: 1, ProtoMinor: 1, Header: h, Body: &closeAwareBody{r: body}, ContentLength: cl, Request: hr}
 }
 
 // the transport stub
